@@ -2,7 +2,8 @@
 Proof: coq/C13 (to_json/of_json over key-sorted maps, round trip, fixed point, id pre-image invariance and
 separation, parametric in the dumps / sha256 / repr oracles).  Tie: op sequences on the real metabook classes
 vs the extracted model, canonical JSON and collection ids recomputed from the model's output.
-Search: round-trip / fixed-point / id-invariance / id-separation / no-shared-defaults oracles on the real code."""
+Search: round-trip / fixed-point / id-invariance / id-separation / no-shared-defaults / independence-of-loaded-copies oracles on the
+real code; every hit is settled (re-run alone in a fresh process, delta-debugged) before it is reported."""
 import hashlib
 import json
 import os
@@ -185,6 +186,14 @@ def gen_text_case(rng, cid, null_defaults):
     text = json.dumps(mb, ensure_ascii=rng.random() < 0.5, indent=rng.choice([None, 2]))
     base = rng.choice(BASES)
     ops = [["loadtext", text], ["dumps"], ["walk"], ["roundtrip"], ["ids", base]]
+    if rng.random() < 0.3:
+        # the consumer that loaded the text goes on working with its object
+        for _ in range(rng.choice([1, 2])):
+            if rng.random() < 0.5:
+                ops.append(["append", rng.choice(TITLES), None, {}])
+            else:
+                ops.append(["set", rng.choice(OPT_FIELDS + ["summary"]), fz(rng, rng.choice(TITLES))])
+        ops.append(["state"])
     if rng.random() < 0.6:
         # the same request text is decoded again by another consumer (True: the text as received, not a re-serialisation)
         ops += [["indep", base, gen_muts(rng), rng.random() < 0.7], ["state"], ["roundtrip"]]
@@ -365,6 +374,10 @@ def monitor(run, case, op, r, defaults):
         if d or cc.canon(first) != cc.canon(again):
             run.hit("indep:reload-differs:" + str(d).split("/")[-1], "loads(text) is not a function of the text: after a consumer changed its own "
                     "copy (%s), loading the same text again differs from the first load at %s" % (muts, d), rp)
+        if o.get("loadtime", "=first") != "=first":
+            d = first_diff(o["loadtime"], first)
+            run.hit("indep:load-differs-from-earlier-load:" + str(d).split("/")[-1], "loads(text) is not a function of the text: it returns "
+                    "something else (at %s) than when the same text was loaded earlier in the case, after the object loaded then was changed" % d, rp)
         if o["titles_first"] != o["titles_again"]:
             run.hit("indep:reload-articles", "articles of loads(text) changed from %r to %r after a consumer changed its own copy" %
                     (o["titles_first"][:5], o["titles_again"][:5]), rp)
@@ -510,7 +523,7 @@ def settle_hits(run, sink, src, defaults, cases, nshard):
                 if fams[f] and len(order) < 5:
                     order.append(fams[f].pop(0))
         for fp in order:
-            budget = [100]
+            budget = [70]
             got, pre, case = None, [], None
             for h in by_fp[fp][:3]:
                 case = {"ops": h["replay"]["case"]["ops"]}
@@ -604,11 +617,16 @@ def expected_id(version, base, canon_json):
 
 
 def check(run):
-    run.rule = ("op sequences on a Collection: constructor keywords, append_article (whitespace, displaytitle, revision), Chapter/Custom items, "
-                "setattr of optional / extra / underscore fields with Unicode, None, ints, lists, plain dicts, WikiConf objects, reload; plus "
-                "hand-made request texts (type case variants, nulls, unknown types, extra keys). Each case ends with state, dumps, walk, round "
-                "trip, ids for 5 spellings of the same metabook, up to 5 one-field differences, 3 parameter differences. distinct = distinct op "
-                "list; non-trivial = at least one article")
+    run.rule = ("op sequences on a Collection: constructor keywords, append_article (whitespace, displaytitle, revision), Chapter/Custom/Article "
+                "items, setattr of optional / extra / underscore fields with Unicode, None, ints, lists, plain dicts, WikiConf objects, reload; "
+                "every attribute slot also receives the falsy-but-set values 0, '', False, [], {} (12-60%); plus hand-made request texts (type "
+                "case variants, nulls, falsy values, unknown types, extra keys). Each case ends with state, dumps, walk, round trip, ids for 5 "
+                "spellings of the same metabook, up to 9 one-field differences (title/revision changed, emptied, zeroed; order; chapter title; "
+                "item removed), 3 parameter differences; 60% of the cases continue with `indep`: the same text is loaded twice more, 1-5 "
+                "mutations (append_article, setattr, items/wikis/licenses append, in-place edit of an item, pop, reverse) are applied to one "
+                "copy, then the other copy, a further load, its dumps and the collection id of the identical request are compared with what "
+                "they were. distinct = distinct op list; non-trivial = at least one article. Monitor hits are re-run alone in a fresh process "
+                "and delta-debugged (ops, keyword arguments, mutation lists, request text) before they are reported")
     run.trusted = ["Coq 8.16.1 kernel (coqc); vm_compute in the class-table obligations and Examples",
                    "extraction (ExtrOcamlBasic only) + ocaml/c13/driver.ml + vt/harness/c13_codec.py",
                    "hand-written model of MetabookObject.__init__/_json, object_hook, append_article, walk, make_collection_id's pre-image "
